@@ -47,10 +47,9 @@ def rule_exact_reads(prog, chk, pid):
                             if op == "NotEq" or (op == "Lt" and x is a):
                                 good = True
             # ... or the return itself sits under `if len(result) == size:` (the raise then follows the if)
-            for f in ret.ctx:
-                if f[0] != "if":
-                    continue
-                r_ = rel(f[1], bool(f[2]))
+            known = [(f[1], bool(f[2])) for f in ret.ctx if f[0] == "if"] + [(c, bool(p_)) for c, p_ in (getattr(ret, "facts", ()) or ())]
+            for c_, p_ in known:
+                r_ = rel(c_, p_)
                 for d in ([r_] if r_[0] == "rel" else r_[1] if r_[0] == "and" else []):
                     if d[0] == "rel" and d[1] == "Eq" and d[3] is not None:
                         a, b = unsnap(d[2]), unsnap(d[3])
